@@ -9,7 +9,7 @@ import (
 
 func main() {
 	if len(os.Args) < 2 {
-		fmt.Fprintln(os.Stderr, "usage: synh c22|c17|c18|c18corpus|c17corpus < cases.ndjson")
+		fmt.Fprintln(os.Stderr, "usage: synh c22|c17|c18 < cases.ndjson | synh corpus c17|c18 <root> [file...]")
 		os.Exit(3)
 	}
 	switch os.Args[1] {
